@@ -1,3 +1,4 @@
+import os
 """Instance generators for the K-nucleo engine (harnesses compiled into the `nucleo` crate)."""
 from matcher_props import Inst, gen_text, _with_rules
 
@@ -232,6 +233,8 @@ def write_gen(sc, tier, extra=(), small=None):
             continue
         # the protocol family runs the real worker, whose vectors legitimately grow: no Vec::push stub
         sc.write_gen(fam + ".rs", gen_text(fams.get(fam, []), "harnesses_nostub" if fam == "nucleo_proto" else "harnesses"))
+    if not os.path.exists(os.path.join(sc.gen, "miri_reader.rs")):
+        sc.write_gen("miri_reader.rs", 'pub const MIRI_READER: &str = "get";\n')
     # score table of scored_h.rs: the real function's values, computed natively when a scored instance is run
     import engine
     tab = None
